@@ -19,11 +19,11 @@ func init() {
 	core.Register(&core.Check{
 		ID:    "C02",
 		Level: "fault_enumeration",
-		Rule: "for every driver x replacing configuration (in-place, out==in, existing output; colliding file in an output directory): one fault-free execution with a directory snapshot before every intercepted filesystem event and a torn-write snapshot (first half of the buffer applied) inside every write; each snapshot is the directory a kill -9 at that point leaves behind; " +
+		Rule: "for every driver x replacing configuration (in-place, out==in, existing output; colliding file in an output directory): one fault-free execution with a directory snapshot before every intercepted filesystem event and a torn-write snapshot (first half of the buffer applied) inside every write; each snapshot is the directory a kill -9 at that point leaves behind; one deviation: every file-creating call (thorough: every call) of that execution fails once with EIO and once with EACCES, and every run that still reports success (pdfcpu took another route) goes through the same snapshot enumeration; " +
 			"non-trivial = a snapshot taken after the first staging file exists and before the operation returned",
-		Assume: []string{"process-kill model: the page cache survives, so the directory contents at an event boundary are what a killed process leaves (power loss is C07's model)", "all filesystem calls go through package os (intercepted)"},
-		Run:      func(r *core.R) { core.Sharded(r, core.Workers()) },
-		RunShard: c02shard,
+		Assume:    []string{"process-kill model: the page cache survives, so the directory contents at an event boundary are what a killed process leaves (power loss is C07's model)", "all filesystem calls go through package os (intercepted)"},
+		Run:       func(r *core.R) { core.Sharded(r, core.Workers()) },
+		RunShard:  c02shard,
 		QuickSecs: 200,
 	})
 }
@@ -72,94 +72,145 @@ func c02shard(r *core.R, shard, n int) {
 				}
 			}
 		}
-		// run with snapshots
-		dir := filepath.Join(base, "w")
-		var snaps []c02snap
-		res := c02exec(base, d, cfg, collide, func(c *fsx.Ctl) {
-			c.SplitWrites = true
-			c.OnEvent = func(k int, ev *vos.Event) {
-				snaps = append(snaps, c02snap{at: k, ev: ev.Kind + " " + c.Canon(ev.Path), tree: fsx.Snap(dir)})
-			}
-			c.OnMid = func(k int, ev *vos.Event) {
-				snaps = append(snaps, c02snap{at: k, torn: true, ev: ev.Kind + " " + c.Canon(ev.Path), tree: fsx.Snap(dir)})
-			}
-		})
-		if res.err != nil || res.pv != nil {
-			if cfg == "collide" {
-				continue // refusal: nothing replaced
-			}
-			r.HarnessError("%s/%s: fault-free run failed: %v %v", d.Name, cfg, res.err, res.pv)
-			continue
-		}
-		r.Count("executions", 1)
-		r.SetAdd("drivers", d.Name)
-		dest := "out.pdf"
-		switch cfg {
-		case "inplace", "same", "inplace-readonly":
-			dest = "in.pdf"
-		case "collide":
-			dest = "outdir/" + collide
-		}
-		old, fin := res.t0[dest], res.t1[dest]
-		if old.Sum == fin.Sum {
-			r.Count("dest_not_replaced", 1)
-		}
-		firstStage := -1
-		for _, s := range snaps {
-			r.Eval(1)
-			r.Count("snapshots", 1)
-			if s.torn {
-				r.Count("torn_write_snapshots", 1)
-			}
-			staged := false
-			for name := range s.tree {
-				if _, was := res.t0[name]; !was {
-					staged = true
+		baseViol := map[string]bool{}
+		analyse := func(plan []fsx.Fault, planDesc string) ([]c02snap, *c01res) {
+			// run with snapshots
+			dir := filepath.Join(base, "w")
+			var snaps []c02snap
+			res := c02exec(base, d, cfg, collide, func(c *fsx.Ctl) {
+				c.SplitWrites = true
+				c.Plan = plan
+				c.OnEvent = func(k int, ev *vos.Event) {
+					snaps = append(snaps, c02snap{at: k, ev: ev.Kind + " " + c.Canon(ev.Path), tree: fsx.Snap(dir)})
 				}
-			}
-			if staged && firstStage < 0 {
-				firstStage = s.at
-			}
-			if staged {
-				r.Nontrivial(1)
-			}
-			cs := map[string]any{"driver": d.Name, "config": cfg, "kill_before_event": s.at, "torn": s.torn, "event": s.ev}
-			site := fmt.Sprintf("%s/%s/kill@%s", d.Name, cfg, strings.ReplaceAll(s.ev, " ", ":"))
-			if s.torn {
-				site += "(torn)"
-			}
-			e, ok := s.tree[dest]
-			if !ok {
-				r.Violation(site+"/dest-missing", fmt.Sprintf("kill before event %d (%s): %s does not exist", s.at, s.ev, dest), cs)
-			} else if !(e.Sum == old.Sum && e.Mode == old.Mode) && !(e.Sum == fin.Sum) && strings.HasSuffix(d.Name, "(incr)") && e.Size > old.Size {
-				r.Violation(d.Name+"/increment-appended-in-place-torn-write", fmt.Sprintf("kill inside the write of the increment (%s, event %d, %s): %s holds its previous bytes plus a partial increment (%d bytes; old %d, final %d)", cfg, s.at, s.ev, dest, e.Size, old.Size, fin.Size), cs)
-			} else if !(e.Sum == old.Sum && e.Mode == old.Mode) && !(e.Sum == fin.Sum) {
-				r.Violation(site+"/dest-partial", fmt.Sprintf("kill before event %d (%s): %s holds neither its previous nor its final bytes (%d bytes; old %d, final %d)", s.at, s.ev, dest, e.Size, old.Size, fin.Size), cs)
-			}
-			for name, ne := range s.tree {
-				if name == dest {
-					continue
+				c.OnMid = func(k int, ev *vos.Event) {
+					snaps = append(snaps, c02snap{at: k, torn: true, ev: ev.Kind + " " + c.Canon(ev.Path), tree: fsx.Snap(dir)})
 				}
-				if oe, was := res.t0[name]; was {
-					// every other pre-existing file is untouched, except final outputs of a multi-output run
-					if oe.Sum != ne.Sum && !(d.Kind == "multi" && res.t1[name].Sum == ne.Sum) {
-						r.Violation(site+"/other-file-changed:"+c01canonName(name), fmt.Sprintf("kill before event %d (%s): %s changed", s.at, s.ev, name), cs)
+			})
+			if res.err != nil || res.pv != nil {
+				if cfg == "collide" || plan != nil {
+					return nil, nil // refusal (nothing replaced) / the injected fault made the operation fail: C01's subject
+				}
+				r.HarnessError("%s/%s: fault-free run failed: %v %v", d.Name, cfg, res.err, res.pv)
+				return nil, nil
+			}
+			if plan != nil {
+				if len(res.fired) == 0 {
+					return nil, nil
+				}
+				r.Count("tolerated_fault_runs_reporting_success", 1)
+			}
+			r.Count("executions", 1)
+			r.SetAdd("drivers", d.Name)
+			dest := "out.pdf"
+			switch cfg {
+			case "inplace", "same", "inplace-readonly":
+				dest = "in.pdf"
+			case "collide":
+				dest = "outdir/" + collide
+			}
+			old, fin := res.t0[dest], res.t1[dest]
+			if old.Sum == fin.Sum {
+				r.Count("dest_not_replaced", 1)
+			}
+			firstStage := -1
+			for _, s := range snaps {
+				r.Eval(1)
+				r.Count("snapshots", 1)
+				if s.torn {
+					r.Count("torn_write_snapshots", 1)
+				}
+				staged := false
+				for name := range s.tree {
+					if _, was := res.t0[name]; !was {
+						staged = true
 					}
-					continue
 				}
-				if fe, isFinal := res.t1[name]; isFinal && !fsx.IsStaging(name) {
-					// a new final output of a multi-output operation: must be complete
-					if d.Kind == "multi" && fe.Sum == ne.Sum {
+				if staged && firstStage < 0 {
+					firstStage = s.at
+				}
+				if staged {
+					r.Nontrivial(1)
+				}
+				cs := map[string]any{"driver": d.Name, "config": cfg, "kill_before_event": s.at, "torn": s.torn, "event": s.ev, "tolerated_fault": plan}
+				killAt := "/kill@" + strings.ReplaceAll(s.ev, " ", ":")
+				if s.torn {
+					killAt += "(torn)"
+				}
+				site := fmt.Sprintf("%s/%s%s%s", d.Name, cfg, planDesc, killAt)
+				baseSite := fmt.Sprintf("%s/%s%s", d.Name, cfg, killAt)
+				viol := func(suffix, msg string) {
+					if plan == nil {
+						baseViol[baseSite+suffix] = true
+					} else if baseViol[baseSite+suffix] {
+						return // the fault-free run of this driver shows the same thing at the same kill point: not a new observation
+					}
+					r.Violation(site+suffix, msg, cs)
+				}
+				e, ok := s.tree[dest]
+				if !ok {
+					viol("/dest-missing", fmt.Sprintf("kill before event %d (%s): %s does not exist", s.at, s.ev, dest))
+				} else if !(e.Sum == old.Sum && e.Mode == old.Mode) && !(e.Sum == fin.Sum) && strings.HasSuffix(d.Name, "(incr)") && e.Size > old.Size {
+					r.Violation(d.Name+"/increment-appended-in-place-torn-write", fmt.Sprintf("kill inside the write of the increment (%s, event %d, %s): %s holds its previous bytes plus a partial increment (%d bytes; old %d, final %d)", cfg, s.at, s.ev, dest, e.Size, old.Size, fin.Size), cs)
+				} else if !(e.Sum == old.Sum && e.Mode == old.Mode) && !(e.Sum == fin.Sum) {
+					viol("/dest-partial", fmt.Sprintf("kill before event %d (%s): %s holds neither its previous nor its final bytes (%d bytes; old %d, final %d)", s.at, s.ev, dest, e.Size, old.Size, fin.Size))
+				}
+				for name, ne := range s.tree {
+					if name == dest {
 						continue
 					}
-					if d.Kind == "multi" {
-						r.Violation(site+"/new-output-partial:"+c01canonName(name), fmt.Sprintf("kill before event %d (%s): new output %s is partial (%d of %d bytes)", s.at, s.ev, name, ne.Size, fe.Size), cs)
+					if oe, was := res.t0[name]; was {
+						// every other pre-existing file is untouched, except final outputs of a multi-output run
+						if oe.Sum != ne.Sum && !(d.Kind == "multi" && res.t1[name].Sum == ne.Sum) {
+							viol("/other-file-changed:"+c01canonName(name), fmt.Sprintf("kill before event %d (%s): %s changed", s.at, s.ev, name))
+						}
 						continue
 					}
+					if fe, isFinal := res.t1[name]; isFinal && !fsx.IsStaging(name) {
+						// a new final output of a multi-output operation: must be complete
+						if d.Kind == "multi" && fe.Sum == ne.Sum {
+							continue
+						}
+						if d.Kind == "multi" {
+							viol("/new-output-partial:"+c01canonName(name), fmt.Sprintf("kill before event %d (%s): new output %s is partial (%d of %d bytes)", s.at, s.ev, name, ne.Size, fe.Size))
+							continue
+						}
+					}
+					b := filepath.Base(name)
+					if !fsx.IsStaging(name) || !strings.HasPrefix(b, ".") || filepath.Dir(name) != filepath.Dir(dest) {
+						viol("/leftover-not-hidden-staging:"+c01canonName(name), fmt.Sprintf("kill before event %d (%s): leftover %s is not a hidden staging file next to %s", s.at, s.ev, name, dest))
+					}
 				}
-				b := filepath.Base(name)
-				if !fsx.IsStaging(name) || !strings.HasPrefix(b, ".") || filepath.Dir(name) != filepath.Dir(dest) {
-					r.Violation(site+"/leftover-not-hidden-staging:"+c01canonName(name), fmt.Sprintf("kill before event %d (%s): leftover %s is not a hidden staging file next to %s", s.at, s.ev, name, dest), cs)
+			}
+			return snaps, res
+		}
+		snaps, res := analyse(nil, "")
+		if res != nil {
+			// one deviation: every staging-related call (thorough: every call) fails once with EIO / EACCES; a run that still
+			// reports success (pdfcpu fell back to something else) is put through the same kill enumeration
+			type cls struct {
+				c string
+				k int
+			}
+			seen := map[string]int{}
+			var sites []cls
+			for _, e := range res.trace {
+				c := e.Class()
+				seen[c]++
+				if r.Quick() && !(strings.HasPrefix(e.Kind, "create") || e.Kind == "openfile" || e.Kind == "mkdir" || e.Kind == "mkdirtemp") {
+					continue
+				}
+				sites = append(sites, cls{c, seen[c]})
+			}
+			for _, st := range sites {
+				for _, en := range []string{"", "EACCES"} {
+					if r.Expired() {
+						r.Cut("internal deadline in tolerated-fault variants")
+						return
+					}
+					r.Count("tolerated_fault_runs", 1)
+					desc := fmt.Sprintf("+fault(%s#%d:%s)", strings.ReplaceAll(st.c, " ", ":"), st.k, map[string]string{"": "EIO", "EACCES": "EACCES"}[en])
+					analyse([]fsx.Fault{{Class: st.c, K: st.k, Kind: "errno", Errno: en}}, desc)
 				}
 			}
 		}
@@ -206,6 +257,7 @@ func c02exec(base string, d *FSDriver, cfg, collide string, tune func(c *fsx.Ctl
 	defer func() { vtime.Pinned = time.Time{}; vrand.Unpin() }()
 	res.err, res.pv = ctl.Run(func() error { return d.Run(dir, in, out) })
 	res.trace = append([]fsx.Ev{}, ctl.Trace...)
+	res.fired = ctl.Fired
 	res.t1 = fsx.Snap(dir)
 	return res
 }
